@@ -2,6 +2,7 @@ package main
 
 import (
 	"fmt"
+	"math"
 	"sort"
 
 	fpgo "github.com/TeaEntityLab/fpGo/v2"
@@ -27,8 +28,9 @@ func pmapScenario(n, pool int, random bool, bound int) *vsched.Scenario {
 	var result []int
 	var maxGauge, gaugeAtReturn int
 	return &vsched.Scenario{
-		Name:  fmt.Sprintf("pmap/%s/len%d/pool-%s", mode, n, ps),
-		Bound: bound,
+		Name:       fmt.Sprintf("pmap/%s/len%d/pool-%s", mode, n, ps),
+		Bound:      bound,
+		MaxThreads: 200, // a list of at most 4 elements never needs more (a pool sized by the raw FixedPool would)
 		Body: func() {
 			result, maxGauge, gaugeAtReturn = nil, 0, -1
 			gauge := 0
@@ -327,6 +329,10 @@ func scenarios(tier string) []*vsched.Scenario {
 	}
 	for n := 0; n <= maxLen; n++ {
 		pools := []int{noOption, -1, 0, 1, 2, n, n + 1}
+		if n <= 2 {
+			// "unlimited" and nonsensical pool sizes, in both order modes
+			pools = append(pools, n+7, math.MaxInt32, math.MaxInt, math.MinInt)
+		}
 		seen := map[int]bool{}
 		for _, p := range pools {
 			if seen[p] {
